@@ -1471,7 +1471,7 @@ FRESH_HOSTS = {
     "C08": lambda f: f.name == "update" and f.module == CORE,
     "C06": lambda f: f.qual in ("StrategyBase.rebalance", "StrategyBase.close", "StrategyBase.flatten", "Rebalance.__call__", "RebalanceOverTime.__call__"),
     "C17": lambda f: f.qual in ("StrategyBase.rebalance", "Rebalance.__call__"),
-    "C16": lambda f: f.qual in ("StrategyBase.flatten", "StrategyBase.close", "StrategyBase.update"),
+    "C16": lambda f: f.qual in ("StrategyBase.flatten", "StrategyBase.update"),
     "C20": lambda f: f.qual in ("StrategyBase.close", "ClosePositionsAfterDates.__call__", "RollPositionsAfterDates.__call__", "HedgeRisks.__call__", "UpdateRisk._set_risk_recursive"),
     "C18": lambda f: f.module == "bt/backtest.py" or f.qual in ("StrategyBase.get_transactions", "ReplayTransactions.__call__"),
     "C13": lambda f: f.qual in ("RunIfOutOfBounds.__call__",),
@@ -1674,6 +1674,15 @@ def _walk_conds(v, conds):
                 yield x
 
 
+def _conj_atoms(ls):
+    parts = [a if p else ("not", a) for a, p in ls]
+    if not parts:
+        return ("bool", True)
+    if len(parts) == 1:
+        return parts[0]
+    return ("and",) + tuple(parts)
+
+
 def sizing_loop_cap(chk, pid):
     """C10.R3: every cycle of the sizing loop passes a counter increment and a cap test that raises (raise, not hang)."""
     S = chk.summary(CORE, "SecurityBase", "allocate", host="SecurityBase", no_inline=("outlay", "transact", "update", "commission"))
@@ -1688,7 +1697,14 @@ def sizing_loop_cap(chk, pid):
             continue
         for a, p in plain(e.guard):
             if a[0] == "cmp" and any(sym.contains(a, lambda x, n=n: x == ("wl", n, loop.lid)) for n in counters):
-                rest = [l for l in plain(e.guard) if l not in plain(loop.guard0) and l != (a, p)]
+                brk = set()
+                for kind, ps in loop.pending:
+                    if kind == "break":
+                        ex = [l for l in plain(ps.guard) if l not in plain(loop.guard0)]
+                        brk.add((canon(_conj_atoms(ex)), False))
+                        for l in ex:
+                            brk.add((canon(l[0]), not l[1]))
+                rest = [l for l in plain(e.guard) if l not in plain(loop.guard0) and l != (a, p) and (canon(l[0]), l[1]) not in brk]
                 ok = ok or not rest
     chk.ob("C10.R3", ok and bool(counters), CORE, host, "iteration-cap", "the search for the quantity cannot hang: a counter is incremented on every cycle and a cap raises", where=S.fn.where,
            expected="i = i + 1; if i > cap: raise", found="counters: %s" % counters)
